@@ -340,6 +340,25 @@ pub fn run_c29(ctx: &Ctx) -> i32 {
         }
     };
     let mib = 1u64 << 20;
+    // entry points that DERIVE the per-layer count from a length: the private-batch public-input parsers (u64 and
+    // field-element based) and the padded-length helper; counts 0 (header only), 65 and 1000, headers otherwise well formed
+    {
+        use qp_wormhole_inputs::PrivateBatchPublicInputs;
+        use wormhole_aggregator::common::utils::private_batch_num_leaves_from_padded_pi_len;
+        use wormhole_circuit::inputs::ParsePrivateBatchPublicInputs;
+        for c in [0usize, 65, 66, 1000] {
+            let len = 8 + 21 * c;
+            for header in [2 * c as u64, 0u64, 2] {
+                let mut v = vec![0u64; len];
+                v[0] = header;
+                let d = format!("{c} (derived from length {len}, header constant {header})");
+                check_bad("PrivateBatchPublicInputs::try_from_u64_slice(derived)", d.clone(), 64 * 1024, &|| PrivateBatchPublicInputs::try_from_u64_slice(&v).is_ok());
+                let felts: Vec<F> = v.iter().map(|x| crate::cso::f(*x)).collect();
+                check_bad("ParsePrivateBatchPublicInputs::try_from_felts(derived)", d.clone(), 64 * 1024, &|| <PrivateBatchPublicInputs as ParsePrivateBatchPublicInputs>::try_from_felts(&felts).is_ok());
+            }
+            check_bad("private_batch_num_leaves_from_padded_pi_len", format!("{c} (length {len})"), 4096, &|| private_batch_num_leaves_from_padded_pi_len(len).is_ok());
+        }
+    }
     for &c in &bad {
         let d = format!("{c}");
         check_bad("validate_proof_count", d.clone(), 4096, &|| validate_proof_count(c, "x").is_ok());
